@@ -153,7 +153,7 @@ fn reset_dir(dir: &Path, path: &Path, old: Option<&RetainSnapshot>) {
 
 fn run_child_store(shim: &str, dir: &Path, path: &Path, seed: u64, id: u64, log: &Path, kill: Option<(u64, u64)>) -> Option<i32> {
     let _ = std::fs::remove_file(log);
-    let exe = std::env::current_exe().unwrap();
+    let exe = crate::util::self_exe();
     let mut c = Command::new(exe);
     c.args(["retain-child", "store", path.to_str().unwrap(), &seed.to_string(), &id.to_string()])
         .env("LD_PRELOAD", shim)
@@ -377,7 +377,7 @@ pub fn run(args: &[String]) -> i32 {
     }
     let mut next = 0usize;
     while next < corrupt {
-        let exe = std::env::current_exe().unwrap();
+        let exe = crate::util::self_exe();
         let out = Command::new(exe).args(["retain-child", "loadmany", cdir.to_str().unwrap(), &next.to_string(), &corrupt.to_string()]).output().unwrap();
         let text = String::from_utf8_lossy(&out.stdout).to_string();
         let mut began: Option<usize> = None;
